@@ -6,7 +6,68 @@
  "mode": "harness",
  "replace_calls": {"arrayaddptr": "rec_arrayaddptr", "arrayaddbuf": "rec_arrayaddbuf", "compilecommand": "rec_compilecommand",
                    "buildobj": "rec_buildobj", "buildexe": "rec_buildexe", "fatal": "osm_oom"},
- "kind": "bounded", "bound": "command lines 'cproc OPTION [ARGUMENT]' (argc <= 3) with one option out of the 36 spellings of the table below, argument word \"ab\", comma lists of at most 3 items; no input file, so main ends in usage() (or, for -l, in the link step)",
+ "variants": {"D.att": ["-DV_OPT=0", "-DV_ATT=1", "-DV_HAS=0", "-DV_N=1"],
+              "D.det": ["-DV_OPT=0", "-DV_ATT=0", "-DV_HAS=1", "-DV_N=1"],
+              "D.missing": ["-DV_OPT=0", "-DV_ATT=0", "-DV_HAS=0", "-DV_N=1"],
+              "U.att": ["-DV_OPT=1", "-DV_ATT=1", "-DV_HAS=0", "-DV_N=1"],
+              "U.det": ["-DV_OPT=1", "-DV_ATT=0", "-DV_HAS=1", "-DV_N=1"],
+              "U.missing": ["-DV_OPT=1", "-DV_ATT=0", "-DV_HAS=0", "-DV_N=1"],
+              "I.att": ["-DV_OPT=2", "-DV_ATT=1", "-DV_HAS=0", "-DV_N=1"],
+              "I.det": ["-DV_OPT=2", "-DV_ATT=0", "-DV_HAS=1", "-DV_N=1"],
+              "I.missing": ["-DV_OPT=2", "-DV_ATT=0", "-DV_HAS=0", "-DV_N=1"],
+              "L.att": ["-DV_OPT=3", "-DV_ATT=1", "-DV_HAS=0", "-DV_N=1"],
+              "L.det": ["-DV_OPT=3", "-DV_ATT=0", "-DV_HAS=1", "-DV_N=1"],
+              "L.missing": ["-DV_OPT=3", "-DV_ATT=0", "-DV_HAS=0", "-DV_N=1"],
+              "include.det": ["-DV_OPT=4", "-DV_ATT=0", "-DV_HAS=1", "-DV_N=1"],
+              "include.missing": ["-DV_OPT=4", "-DV_ATT=0", "-DV_HAS=0", "-DV_N=1"],
+              "idirafter.det": ["-DV_OPT=5", "-DV_ATT=0", "-DV_HAS=1", "-DV_N=1"],
+              "idirafter.missing": ["-DV_OPT=5", "-DV_ATT=0", "-DV_HAS=0", "-DV_N=1"],
+              "isystem.det": ["-DV_OPT=6", "-DV_ATT=0", "-DV_HAS=1", "-DV_N=1"],
+              "isystem.missing": ["-DV_OPT=6", "-DV_ATT=0", "-DV_HAS=0", "-DV_N=1"],
+              "iquote.det": ["-DV_OPT=7", "-DV_ATT=0", "-DV_HAS=1", "-DV_N=1"],
+              "iquote.missing": ["-DV_OPT=7", "-DV_ATT=0", "-DV_HAS=0", "-DV_N=1"],
+              "MT.det": ["-DV_OPT=8", "-DV_ATT=0", "-DV_HAS=1", "-DV_N=1"],
+              "MT.missing": ["-DV_OPT=8", "-DV_ATT=0", "-DV_HAS=0", "-DV_N=1"],
+              "MF.det": ["-DV_OPT=9", "-DV_ATT=0", "-DV_HAS=1", "-DV_N=1"],
+              "MF.missing": ["-DV_OPT=9", "-DV_ATT=0", "-DV_HAS=0", "-DV_N=1"],
+              "nostdinc": ["-DV_OPT=10", "-DV_ATT=0", "-DV_HAS=0", "-DV_N=1"],
+              "stdc11": ["-DV_OPT=11", "-DV_ATT=0", "-DV_HAS=0", "-DV_N=1"],
+              "M": ["-DV_OPT=12", "-DV_ATT=0", "-DV_HAS=0", "-DV_N=1"],
+              "MM": ["-DV_OPT=13", "-DV_ATT=0", "-DV_HAS=0", "-DV_N=1"],
+              "MD": ["-DV_OPT=14", "-DV_ATT=0", "-DV_HAS=0", "-DV_N=1"],
+              "MMD": ["-DV_OPT=15", "-DV_ATT=0", "-DV_HAS=0", "-DV_N=1"],
+              "static": ["-DV_OPT=16", "-DV_ATT=0", "-DV_HAS=0", "-DV_N=1"],
+              "P": ["-DV_OPT=17", "-DV_ATT=0", "-DV_HAS=0", "-DV_N=1"],
+              "s": ["-DV_OPT=18", "-DV_ATT=0", "-DV_HAS=0", "-DV_N=1"],
+              "pthread": ["-DV_OPT=19", "-DV_ATT=0", "-DV_HAS=0", "-DV_N=1"],
+              "Wp.1": ["-DV_OPT=20", "-DV_ATT=0", "-DV_HAS=0", "-DV_N=1"],
+              "Wp.2": ["-DV_OPT=20", "-DV_ATT=0", "-DV_HAS=0", "-DV_N=2"],
+              "Wp.3": ["-DV_OPT=20", "-DV_ATT=0", "-DV_HAS=0", "-DV_N=3"],
+              "Wa.1": ["-DV_OPT=21", "-DV_ATT=0", "-DV_HAS=0", "-DV_N=1"],
+              "Wa.2": ["-DV_OPT=21", "-DV_ATT=0", "-DV_HAS=0", "-DV_N=2"],
+              "Wa.3": ["-DV_OPT=21", "-DV_ATT=0", "-DV_HAS=0", "-DV_N=3"],
+              "Wl.1": ["-DV_OPT=22", "-DV_ATT=0", "-DV_HAS=0", "-DV_N=1"],
+              "Wl.2": ["-DV_OPT=22", "-DV_ATT=0", "-DV_HAS=0", "-DV_N=2"],
+              "Wl.3": ["-DV_OPT=22", "-DV_ATT=0", "-DV_HAS=0", "-DV_N=3"],
+              "g": ["-DV_OPT=23", "-DV_ATT=0", "-DV_HAS=0", "-DV_N=1"],
+              "O2": ["-DV_OPT=24", "-DV_ATT=0", "-DV_HAS=0", "-DV_N=1"],
+              "pipe": ["-DV_OPT=25", "-DV_ATT=0", "-DV_HAS=0", "-DV_N=1"],
+              "pedantic": ["-DV_OPT=26", "-DV_ATT=0", "-DV_HAS=0", "-DV_N=1"],
+              "Wall": ["-DV_OPT=27", "-DV_ATT=0", "-DV_HAS=0", "-DV_N=1"],
+              "c": ["-DV_OPT=28", "-DV_ATT=0", "-DV_HAS=0", "-DV_N=1"],
+              "E": ["-DV_OPT=29", "-DV_ATT=0", "-DV_HAS=0", "-DV_N=1"],
+              "S": ["-DV_OPT=30", "-DV_ATT=0", "-DV_HAS=0", "-DV_N=1"],
+              "emit-qbe": ["-DV_OPT=31", "-DV_ATT=0", "-DV_HAS=0", "-DV_N=1"],
+              "v": ["-DV_OPT=32", "-DV_ATT=0", "-DV_HAS=0", "-DV_N=1"],
+              "nostdlib": ["-DV_OPT=33", "-DV_ATT=0", "-DV_HAS=0", "-DV_N=1"],
+              "o.att": ["-DV_OPT=34", "-DV_ATT=1", "-DV_HAS=0", "-DV_N=1"],
+              "o.det": ["-DV_OPT=34", "-DV_ATT=0", "-DV_HAS=1", "-DV_N=1"],
+              "o.missing": ["-DV_OPT=34", "-DV_ATT=0", "-DV_HAS=0", "-DV_N=1"],
+              "l.att": ["-DV_OPT=35", "-DV_ATT=1", "-DV_HAS=0", "-DV_N=1"],
+              "l.det": ["-DV_OPT=35", "-DV_ATT=0", "-DV_HAS=1", "-DV_N=1"],
+              "l.missing": ["-DV_OPT=35", "-DV_ATT=0", "-DV_HAS=0", "-DV_N=1"]},
+ "canary_variant": "D.att",
+ "kind": "bounded", "bound": "the 60 command lines 'cproc OPTION [ARGUMENT]' (argc <= 3) made of the 36 option spellings of the table below in attached / detached / missing-argument form, argument word \"ab\", comma lists of 1..3 items, one CBMC run each (a symbolic option word costs > 2 min and 7 GB per option); no input file, so main ends in usage() (or, for -l, in the link step)",
  "unwind": 14, "unwindset": ["strcmp.0:20", "strlen.0:20", "main.0:5", "main.1:4", "main.3:3"],
  "noreturn_macros": false, "stubs": ["os_model.c"], "link_repo": ["util.c"],
  "cbmc_flags": ["--no-malloc-may-fail"],
@@ -59,7 +120,7 @@ rec_arrayaddbuf(struct array *a, const void *src, size_t n)
 {
 	int s = stage_of(a);
 
-	__CPROVER_assert(s >= 0 && g_nlog == 0, "base commands are added first, to stage commands only");
+	__CPROVER_assert(s >= 0 && g_nlog <= 1, "base commands are added before any option word, to stage commands only");
 	g_nbuf[s] += (int)(n / sizeof(char *));
 }
 
@@ -178,6 +239,9 @@ void
 osm_at_exit(int status)
 {
 	__CPROVER_assert(status == 2, "EXIT without an input file the driver ends in usage (status 2)");
+#ifdef VERIF_CANARY
+	__CPROVER_assert(!(g_opt == 0 && g_attached), "CANARY exit reachable");
+#endif
 	__CPROVER_assert(opts[g_opt].form != F_LIB || MISSING, "EXIT -l with an argument goes on to link");
 	check_routing();
 }
@@ -197,6 +261,11 @@ harness(void)
 
 	__CPROVER_assume(in_opt >= 0 && in_opt < NOPTS);
 	__CPROVER_assume(in_nitems >= 1 && in_nitems <= 3);
+#ifdef V_OPT
+	/* one concrete command line per CBMC run */
+	__CPROVER_assume(in_opt == V_OPT && in_attached == V_ATT && in_hasarg == V_HAS && in_nitems == V_N);
+	in_opt = V_OPT; in_attached = V_ATT; in_hasarg = V_HAS; in_nitems = V_N;
+#endif
 	sp = opts[in_opt].spell;
 	/* argv[1]: the spelling, then the attached argument / the comma list */
 	for (n = 0; n < 11 && sp[n]; ++n)
